@@ -867,6 +867,18 @@ impl LiveActor {
     pub fn verif_unset_syncing(&mut self, namespace: &NamespaceId) {
         self.state.remove(namespace);
     }
+    /// Is the document in the sync set?
+    pub fn verif_is_syncing(&self, namespace: &NamespaceId) -> bool {
+        self.state.is_syncing(namespace)
+    }
+    /// The `ToLiveActor::StartSync` arm of the actor loop (no peers given).
+    pub async fn verif_start_sync(&mut self, namespace: NamespaceId) -> Result<()> {
+        self.start_sync(namespace, vec![]).await
+    }
+    /// The `ToLiveActor::Leave` arm of the actor loop.
+    pub async fn verif_leave(&mut self, namespace: NamespaceId) -> Result<()> {
+        self.leave(namespace, false).await
+    }
     /// `sync_with_peer`
     pub fn verif_dial(&mut self, namespace: NamespaceId, peer: PublicKey, reason: SyncReason) {
         self.sync_with_peer(namespace, peer, reason)
